@@ -739,8 +739,11 @@ def _negate(t):
 def normalise_module(tree: ast.Module):
     info = {"constants": 0, "inlined": {}, "dropped_helpers": []}
     from .normalize2 import ForwardTemps, NamedTupleReduce, desugar_module, inline_closures, namedtuples
-    desugar_module(tree)
+    from . import normalize2 as _n2
     nts = namedtuples(tree)
+    _n2.NT_NAMES.clear()
+    _n2.NT_NAMES.update(nts)
+    desugar_module(tree)
     EXTRA_PURE.clear()
     EXTRA_PURE.update(nts)
     CLASS_NAMES.clear()
@@ -1314,6 +1317,14 @@ class Canon(ast.NodeTransformer):
         self.generic_visit(node)
         if isinstance(node.test, ast.Constant) and isinstance(node.test.value, bool):
             return node.body if node.test.value else node.orelse
+        # B if T else T  ==>  T and B ;   T if T else B  ==>  T or B      (T free of calls with effects)
+        if _pure_expr(node.test) or all(isinstance(x.func, ast.Attribute) and ast.unparse(x.func) in ("np.array_equal", "np.allclose", "numpy.array_equal", "numpy.allclose")
+                                         for x in ast.walk(node.test) if isinstance(x, ast.Call) and ast.unparse(x.func) not in PURE_CALLS):
+            tt = ast.unparse(node.test)
+            if ast.unparse(node.orelse) == tt:
+                return ast.copy_location(ast.BoolOp(op=ast.And(), values=[node.test, node.body]), node)
+            if ast.unparse(node.body) == tt:
+                return ast.copy_location(ast.BoolOp(op=ast.Or(), values=[node.test, node.orelse]), node)
         # (P if E else None) is not None  ==>  E ; inside the branch where E holds the optional IS P
         oe = self._opt_elem(node.test)
         if oe is not None:
@@ -1787,6 +1798,22 @@ class AppendLoops(ast.NodeTransformer):
                     gen = ast.GeneratorExp(elt=v, generators=[ast.comprehension(target=nxt.target, iter=nxt.iter, ifs=[nxt.body[0].test], is_async=0)])
                     call = ast.Call(func=ast.Name(id="next", ctx=ast.Load()), args=[gen, ast.Constant(value=None)], keywords=[])
                     out.append(ast.copy_location(ast.Assign(targets=[st.targets[0]], value=call, lineno=st.lineno), nxt))
+                    i += 2
+                    continue
+            # x = K; for T in IT: [if C:] x += E      ==>   x = K + sum(E for T in IT [if C])
+            if isinstance(st, ast.Assign) and len(st.targets) == 1 and isinstance(st.targets[0], ast.Name) and isinstance(st.value, ast.Constant) \
+                    and isinstance(st.value.value, int) and not isinstance(st.value.value, bool) and isinstance(nxt, ast.For) and not nxt.orelse and len(nxt.body) == 1:
+                x = st.targets[0].id
+                b = nxt.body[0]
+                cond = None
+                if isinstance(b, ast.If) and not b.orelse and len(b.body) == 1:
+                    cond, b = b.test, b.body[0]
+                if isinstance(b, ast.AugAssign) and isinstance(b.op, ast.Add) and isinstance(b.target, ast.Name) and b.target.id == x \
+                        and not any(isinstance(n, ast.Name) and n.id == x for n in ast.walk(b.value)) and not (cond is not None and any(isinstance(n, ast.Name) and n.id == x for n in ast.walk(cond))):
+                    gen = ast.GeneratorExp(elt=b.value, generators=[ast.comprehension(target=nxt.target, iter=nxt.iter, ifs=[cond] if cond is not None else [], is_async=0)])
+                    total = ast.Call(func=ast.Name(id="sum", ctx=ast.Load()), args=[gen], keywords=[])
+                    val = total if st.value.value == 0 else ast.BinOp(left=st.value, op=ast.Add(), right=total)
+                    out.append(ast.copy_location(ast.Assign(targets=[st.targets[0]], value=val, lineno=st.lineno), nxt))
                     i += 2
                     continue
             # for x in IT: if C: break   else: S(exits)      ==>   x = next((x for x in IT if C), None); if x is None: S
